@@ -304,8 +304,10 @@ var legalNext = map[string]map[string]bool{
 	types.ProcessStateLaunched: {types.ProcessStateRestarting: true, types.ProcessStateTerminating: true, types.ProcessStateCompleted: true},
 	types.ProcessStateRestarting: {types.ProcessStateRunning: true, types.ProcessStateLaunching: true, types.ProcessStateCompleted: true,
 		types.ProcessStateError: true},
+	// Terminating -> Error: a stop request landed between a failed start and
+	// the Error write of the same launch attempt
 	types.ProcessStateTerminating: {types.ProcessStateCompleted: true, types.ProcessStateRestarting: true, types.ProcessStateTerminating: true,
-		types.ProcessStateSkipped: true},
+		types.ProcessStateSkipped: true, types.ProcessStateError: true},
 }
 
 // oracleState checks every status write of every process.
